@@ -28,9 +28,10 @@ def statements(propfile):
 
 def all_pins():
     pins = {}
-    for f in sorted(os.listdir(os.path.join(COQ, "props"))):
-        if f.endswith(".v"):
-            pins["props/" + f] = statements("props/" + f)
+    for sub in ("props", "props/src"):
+        for f in sorted(os.listdir(os.path.join(COQ, sub))):
+            if f.endswith(".v"):
+                pins[sub + "/" + f] = statements(sub + "/" + f)
     return pins
 
 if __name__ == "__main__":
